@@ -156,6 +156,29 @@ class SourceIndex:
             self.trees[mod] = tree
             self._index(mod, tree, path)
 
+    def code_hashes(self):
+        """module -> hash of its code *without* docstrings, comments and formatting (ast.dump of the
+        module with every docstring removed): tells whether the package's code differs from the
+        reference tree in any way that can matter."""
+        out = {}
+        trees = {}
+        pkg = os.path.join(self.repo, "checkpoint_schedules")
+        for root, _dirs, files in os.walk(pkg):
+            for fn in sorted(files):
+                if fn.endswith(".py"):
+                    path = os.path.join(root, fn)
+                    with open(path, "rb") as f:
+                        trees[os.path.relpath(path, self.repo)] = ast.parse(f.read(), filename=path)
+        for mod, tree in sorted(trees.items()):
+            t = ast.parse(ast.unparse(tree))
+            for node in ast.walk(t):
+                if isinstance(node, (ast.FunctionDef, ast.ClassDef, ast.Module, ast.AsyncFunctionDef)) and node.body \
+                        and isinstance(node.body[0], ast.Expr) and isinstance(node.body[0].value, ast.Constant) \
+                        and isinstance(node.body[0].value.value, str):
+                    node.body = node.body[1:] or [ast.Pass()]
+            out[mod] = hashlib.sha1(ast.dump(t).encode()).hexdigest()
+        return out
+
     def _index(self, mod, tree, path):
         consts = {}
         for node in tree.body:
